@@ -49,6 +49,7 @@ def opPre (s : JobList) : Op → Bool
   | .insert pid _ => insertPre s pid
   | .insertJob pid _ _ _ => insertPre s pid
   | .amp pid _ _ _ => insertPre s pid
+  | .hjs pid r _ _ => !r.isStopped || insertPre s pid
   | _ => true
 
 /-- "a job's number never changes while the job exists": every pid present before is, after the
@@ -119,6 +120,37 @@ def jobsRemovalOk (s s' : JobList) (idxs : List Nat) : Bool :=
       if idxs.contains i && !j.state.isAlive then (s'.get i).isNone
       else (match s'.get i with | some j' => j'.pid == j.pid && j'.state == j.state | none => false)
 
+/-- "When a job is suspended, it becomes the current job, and the previous current job becomes the
+    previous job" (job_control.md, "Current and previous jobs").  `becameSuspended s op` is the pid
+    of the job that becomes suspended in the step `op` from `s`, with `true` if it is entered into
+    the list already suspended (`insert`, also through `handle_job_status`) and `false` if a job of
+    the list goes from not suspended to suspended (`update_status`). -/
+def becameSuspended (s : JobList) : Op → Option (Nat × Bool)
+  | .insert pid st => if st.isStopped then some (pid, true) else none
+  | .insertJob pid st _ _ => if st.isStopped then some (pid, true) else none
+  | .hjs pid r _ _ => if r.isStopped then some (pid, true) else none
+  | .update pid st =>
+    if st.isStopped then
+      match (lookup s.pids pid).bind s.get with
+      | some j => if j.isSuspended then none else some (pid, false)
+      | none => none
+    else none
+  | _ => none
+
+/-- the clause on the step `s → s'`: the job with that pid is the current job, and the job that
+    was the current job (if it is another one and still in the list) is the previous job -/
+def suspendedBecomesCurrent (s s' : JobList) (pid : Nat) : Bool :=
+  match lookup s'.pids pid with
+  | none => false
+  | some j =>
+    s'.currentJob == some j &&
+    (match s.currentJob with
+     | none => true
+     | some c => c == j || (s'.get c).isNone || s'.previousJob == some c)
+
+/-- the message of the KNOWN FINDING (KNOWN_FINDINGS.txt): the clause fails on the `insert` path -/
+def knownInsertMsg : String := "doc-suspended-becomes-current@insert"
+
 /-- per-operation documentation checks evaluated on the model's own step `s → s'` with output `o` -/
 def docCheck (s s' : JobList) (op : Op) (o : Out) : Option String :=
   match op with
@@ -151,7 +183,7 @@ def docCheck (s s' : JobList) (op : Op) (o : Out) : Option String :=
          match t.bind s.get with
          | some j => if s'.lastAsync = j.pid then none else some "bg-async"
          | none => some "bg-designation")
-  | .fg _ outcome args =>
+  | .fg _ _ outcome args =>
     if o.errs ≠ [] then none
     else
       let target : Option Nat :=
@@ -184,6 +216,11 @@ def docCheck (s s' : JobList) (op : Op) (o : Out) : Option String :=
         | some j => if s'.lastAsync = pid ∧ j.pid = pid ∧ j.name = name ∧ j.state = .running then none else some "amp-job"
         | none => some "amp-job")
      | none => some "amp-async")
-  | _ => none
+  | op =>
+    (match becameSuspended s op with
+     | none => none
+     | some (pid, viaInsert) =>
+       if suspendedBecomesCurrent s s' pid then none
+       else some (if viaInsert then knownInsertMsg else "doc-suspended-becomes-current@update"))
 
 end YashModel.Job
